@@ -8,6 +8,23 @@ pub(crate) fn stub_backtrace_capture() -> std::backtrace::Backtrace {
     std::backtrace::Backtrace::disabled()
 }
 
+/// stubs for RusticError construction: error *text* (guidance strings, context values, sources) is never the
+/// subject of a property; building it costs EcoString heap loops and `dyn Error` boxing (DESIGN 1.3)
+pub(crate) fn stub_rustic_new<G: Into<EcoString>>(kind: ErrorKind, _guidance: G) -> Box<RusticError> {
+    Box::new(RusticError {
+        kind, guidance: EcoString::new(), docs_url: None, error_code: None, ask_report: false,
+        existing_issue_urls: EcoVec::new(), new_issue_url: None, context: EcoVec::new(), source: None,
+        severity: None, status: None, backtrace: None,
+    })
+}
+pub(crate) fn stub_attach_context<K: Into<EcoString>, V: Into<EcoString>>(this: RusticError, _key: K, _value: V) -> Box<RusticError> {
+    Box::new(this)
+}
+pub(crate) fn stub_attach_source<S: Into<Box<dyn std::error::Error + Send + Sync>>>(this: RusticError, value: S) -> Box<RusticError> {
+    std::mem::forget(value);
+    Box::new(this)
+}
+
 /// stub for `alloc::fmt::format`
 pub(crate) fn stub_format(_a: std::fmt::Arguments<'_>) -> String {
     String::new()
